@@ -136,8 +136,10 @@ pub type SimRunner =
 pub fn build_runner(plan: &Plan) -> SimRunner {
     let cfg = &plan.cfg;
     let mut r: SimRunner = runner::Basic::default().steps(build_collection(plan));
-    if let Some(bc) = cfg.builder_concurrency {
-        r = r.max_concurrent_scenarios(bc);
+    match cfg.builder_concurrency {
+        crate::plan::BuilderLimit::Unset => {}
+        crate::plan::BuilderLimit::Unlimited => r = r.max_concurrent_scenarios(None),
+        crate::plan::BuilderLimit::Limit(n) => r = r.max_concurrent_scenarios(n),
     }
     if let Some(n) = cfg.builder_retries {
         r = r.retries(n);
